@@ -347,6 +347,9 @@ func ruleOperatorTokens(c *core.Ctx) {
 			ref[k] = m
 		}
 	}
+	c.Rule("X6", "integer division of a computed field has the same rounding in every target language: the semantics (refs/operators.json: integer_division_semantics) of the tokens the three emitters print for an integer-typed `/` agree", 1)
+	intDivToken := map[string]string{}
+	var intDivPos token.Pos
 	for _, em := range exprEmitters {
 		_, d, p := c.Func(em.pkg, em.fn)
 		if d == nil {
@@ -356,6 +359,14 @@ func ruleOperatorTokens(c *core.Ctx) {
 		x := &gee.Extractor{Info: p.TypesInfo, Fset: c.Fset}
 		rows := x.Extract(em.fn, d)
 		got := map[string]map[string]string{} // op -> guardclass -> token
+		defer func(name string, pos token.Pos) {
+			if t, ok := got["BinaryOpDiv"]["int"]; ok {
+				intDivToken[name] = t
+			} else if t, ok := got["BinaryOpDiv"]["any"]; ok {
+				intDivToken[name] = t
+			}
+			intDivPos = pos
+		}(em.name, d.Pos())
 		for _, r := range rows {
 			if r.Kind != "emit" {
 				continue
